@@ -2,12 +2,14 @@ import HailVerif.Model.WSem
 import HailVerif.Model.DriverUtil
 open HailVerif HailVerif.DriverUtil HailVerif.WSem
 
-def parseOp (ws : List String) : Option Op :=
+/-- an op of a group, and for an acquire optionally the number j: the task is cancelled at its j-th suspension -/
+def parseOp (ws : List String) : Option (Op × Option Nat) :=
   match ws with
-  | ["acquire", i, w] => do some (.acquire (← i.toNat?) (← w.toNat?))
-  | ["release", i] => do some (.release (← i.toNat?))
-  | ["fail", i] => do some (.fail (← i.toNat?))
-  | ["cancel", i] => do some (.cancel (← i.toNat?))
+  | ["acquire", i, w] => do some (.acquire (← i.toNat?) (← w.toNat?), none)
+  | ["acquire", i, w, j] => do some (.acquire (← i.toNat?) (← w.toNat?), some (← j.toNat?))
+  | ["release", i] => do some (.release (← i.toNat?), none)
+  | ["fail", i] => do some (.fail (← i.toNat?), none)
+  | ["cancel", i] => do some (.cancel (← i.toNat?), none)
   | _ => none
 
 /-- canonical state: free value, holder ids (sorted), waiter ids in `self.events` order, ids whose acquire hit the assertion -/
@@ -16,33 +18,69 @@ def showState (s : State) (asserted : List Nat) : String :=
   let f := fun (l : List Nat) => joinWith "," (l.map toString)
   s!"v={s.value} h={f hs} q={f (ids s.waiters)} a={f asserted}"
 
-/-- the atomic blocks of one group, in order, then the loop runs to quiescence (`settleOps`).  An acquire that hits the
-assertion leaves the state untouched (the AssertionError kills the task before anything is modified). -/
-def runGroup (s : State) : List Op → List Nat → Option (State × List Nat)
-  | [], a =>
-    match run s (settleOps s) with
-    | .ok s' => some (s', a)
-    | .error _ => none
-  | op :: ops, a =>
-    match step s op with
-    | .ok s' => runGroup s' ops a
-    | .error .assertion => (match op with | .acquire i _ => runGroup s ops (a ++ [i]) | _ => none)
+/-- driver state: the model state and, for tasks with an injected cancellation, how many more suspensions they go through
+before it is delivered.  In the model a task suspends (1) in `event.wait()` when it has to queue, (2) at the gate inside
+the body; the fast path of `acquire` has NO suspension point. -/
+structure D where
+  s : State
+  cnt : List (Nat × Nat)
+
+/-- the loop runs to quiescence: injected cancellations that are due are delivered, woken waiters resume in the order in
+which they were woken (a resumed task is then suspended inside its body: one more suspension).  Built from `step` only. -/
+partial def settle (d : D) (late : List Nat) : Option D :=
+  match late with
+  | i :: rest =>
+    if active d.s i then
+      match step d.s (.cancel i) with
+      | .ok s' => settle { d with s := s' } rest
+      | .error _ => none
+    else settle d rest
+  | [] =>
+    match d.s.granted with
+    | [] => some d
+    | (_, i) :: _ =>
+      match step d.s (.resume i) with
+      | .error _ => none
+      | .ok s' =>
+        match d.cnt.find? (·.1 == i) with
+        | some (_, n) =>
+          let cnt' := d.cnt.filter (·.1 != i)
+          if n ≤ 1 then settle ⟨s', cnt'⟩ [i] else settle ⟨s', (i, n - 1) :: cnt'⟩ []
+        | none => settle { d with s := s' } []
+
+/-- the atomic blocks of one group, in order, then `settle`.  An acquire that hits the assertion leaves the state untouched
+(the AssertionError kills the task before anything is modified). -/
+def runGroup (d : D) : List (Op × Option Nat) → List Nat → List Nat → Option (D × List Nat)
+  | [], a, late => (settle d late).map fun d' => (d', a)
+  | (op, j) :: ops, a, late =>
+    match step d.s op with
+    | .ok s' =>
+      match op, j with
+      | .acquire i _, some j =>
+        let cnt' := d.cnt.filter (·.1 != i)
+        -- after its first block the task is suspended for the first time (queued, or at the gate)
+        if j == 1 then runGroup ⟨s', cnt'⟩ ops a (late ++ [i])
+        else if j == 0 then runGroup ⟨s', cnt'⟩ ops a late
+        else runGroup ⟨s', (i, j - 1) :: cnt'⟩ ops a late
+      | .acquire i _, none => runGroup ⟨s', d.cnt.filter (·.1 != i)⟩ ops a late
+      | _, _ => runGroup { d with s := s' } ops a late
+    | .error .assertion => (match op with | .acquire i _ => runGroup d ops (a ++ [i]) late | _ => none)
     | .error .protocol => none
 
 /-- lines: `max N` (new semaphore) or a group `op;op;…` of blocks executed in one loop iteration followed by settling -/
-def handle (st : Option State) (line : String) : Option State × String :=
+def handle (st : Option D) (line : String) : Option D × String :=
   match words line, st with
   | ["max", n], _ =>
     match n.toNat? with
-    | some c => (some (init c), showState (init c) [])
+    | some c => (some ⟨init c, []⟩, showState (init c) [])
     | none => (st, "bad-op")
-  | _, some s =>
+  | _, some d =>
     match (line.splitOn ";").mapM (fun t => parseOp (words t)) with
     | none => (st, "bad-op")
     | some ops =>
-      match runGroup s ops [] with
-      | some (s', a) => (some s', showState s' a)
+      match runGroup d ops [] [] with
+      | some (d', a) => (some d', showState d'.s a)
       | none => (st, "err")
   | _, none => (st, "bad-op")
 
-def main : IO Unit := foldLines (none : Option State) handle
+def main : IO Unit := foldLines (none : Option D) handle
